@@ -54,7 +54,7 @@ type siteCtx struct {
 
 type walker struct {
 	sites  []site
-	target int    // >= 0: apply mutation `mut` at the site with this index
+	target int // >= 0: apply mutation `mut` at the site with this index
 	mut    string
 	done   bool
 	txKind string
@@ -116,8 +116,10 @@ func (w *walker) visit(path, norm, kind string, muts []string, ctx siteCtx, appl
 	}
 }
 
-func feltInc(f *felt.Felt)  { f.Add(f, new(felt.Felt).SetUint64(1)) }
-func feltAsPtr(v reflect.Value) *felt.Felt { return v.Addr().Convert(feltPtrType).Interface().(*felt.Felt) }
+func feltInc(f *felt.Felt) { f.Add(f, new(felt.Felt).SetUint64(1)) }
+func feltAsPtr(v reflect.Value) *felt.Felt {
+	return v.Addr().Convert(feltPtrType).Interface().(*felt.Felt)
+}
 
 func (w *walker) walk(v reflect.Value, path, norm string) {
 	if w.done {
